@@ -841,9 +841,10 @@ def run():
         uncovered=['"explicit and implicit variants agree to third order in dt" is asymptotic: not proved, not tested',
                    '"the implicit iteration terminates" is refuted as quantified (pol_impl_terminates_refuted); proved: one '
                    'sweep for constant potentials and for rigid rotations, and the fixed-point property within tol whenever the loop returns',
-                   'rigid rotation (pol_rigid_rotation_expl/_impl) is proved from the evaluator facts d_r phi = omega r, d_theta phi = 0; '
-                   'that a spline space of degree >= 2 reproduces omega r^2/2 with these derivatives is not proved - it is tested '
-                   'exactly (blossom coefficients, closed form on the code\'s exact output, both spline paths)',
+                   'rigid rotation: proved from the coefficients of omega r^2/2 for the general path '
+                   '(pol_rigid_rotation_*_from_coeffs, pol_quad_potential_derivatives: d_r phi = omega r, d_theta phi = 0 on the closed '
+                   'domain, radial degree >= 2); for the uniform-cubic path the theorems pol_rigid_rotation_expl/_impl still take these '
+                   'two evaluator facts as hypothesis - tested exactly (blossom coefficients on the uniform extension, closed form)',
                    'const_phi_id (pol_const_phi_id_*_full_thm, pol_interp_then_advect_const_*): that the two derivative cross '
                    'evaluations of the potential at the nodes return (well-formed spline space, no zero denominators) is a hypothesis',
                    'for the implicit scheme the fill rule is unreachable (feet are clipped to the radial boundary): '
